@@ -1,7 +1,7 @@
 /-
   C04 — lemmas about the decision table and the chain of nodes.
 -/
-import AttrsModel.Spec.C04
+import AttrsModel.Spec.C04Base
 
 namespace Attrs.C04
 
